@@ -428,7 +428,7 @@ func c12Rules(c *Ctx, r1, r2, r3, r4, r5 string) {
 				for _, ls := range roles.life {
 					called := 0
 					seqs, trunc := ConcPaths(caller, ConcCfg{
-						InitFields: ls.initFields(caller.Params[0]), Conc: ls.conc(caller.Params[0].Name()),
+						InitFields: ls.initFields(caller.Params[0]), Conc: ls.conc(PN(caller.Params[0])),
 						Inline: func(h *ssa.Function) bool { return h != initFn },
 						Event: func(in ssa.Instruction, st *ConcState) string {
 							if x, isC := in.(*ssa.Call); isC && x.Call.StaticCallee() == initFn {
@@ -486,7 +486,7 @@ func c12Rules(c *Ctx, r1, r2, r3, r4, r5 string) {
 			cl, ok := i.(ssa.CallInstruction)
 			return ok && IsCallTo(cl, "(*bufio.Writer).Flush")
 		}
-		recvN := sync.Params[0].Name()
+		recvN := PN(sync.Params[0])
 		classify := func(cl *ssa.Call) string {
 			switch {
 			case isFlush(cl):
@@ -769,7 +769,7 @@ func onlyCalledFrom(f, root *ssa.Function, depth int) bool {
 func c12Stop(c *Ctx, rule string, roles bwsRoles, stop *ssa.Function) {
 	name := stop.String()
 	recv := stop.Params[0]
-	rn := recv.Name()
+	rn := PN(recv)
 	fieldOf := func(st *ConcState, v ssa.Value) string {
 		d := st.Desc(v)
 		d = strings.TrimPrefix(d, "&")
@@ -918,7 +918,7 @@ func c12Write(c *Ctx, rule string, roles bwsRoles, write *ssa.Function) {
 		c.Und(rule, name, "single-whole-write", write.Pos(), "cannot identify the payload parameter")
 		return
 	}
-	recv := write.Params[0].Name()
+	recv := PN(write.Params[0])
 	wD := recv + "." + roles.writer
 	norm := func(d string) string {
 		return strings.ReplaceAll(d, "(Size("+wD+") - Buffered("+wD+"))", "Available("+wD+")")
@@ -1144,7 +1144,7 @@ func c12Write(c *Ctx, rule string, roles bwsRoles, write *ssa.Function) {
 func c12BufferSize(c *Ctx, rule string, roles bwsRoles) {
 	fn := roles.initFn
 	name := fn.String()
-	rn := fn.Params[0].Name()
+	rn := PN(fn.Params[0])
 	defSize, ok1 := c.ConstVal(CorePath, "_defaultBufferSize")
 	defIvl, ok2 := c.ConstVal(CorePath, "_defaultFlushInterval")
 	if !c.Anchor(rule, "zapcore._defaultBufferSize/_defaultFlushInterval", ok1 && ok2) {
